@@ -184,7 +184,11 @@ func genSecDoc(r *Rand, idx int) *secDoc {
 		d.plainMeta = d.version >= pdf.V1_6 && r.Bool()
 		d.metaTitle = string(newNeedle(r, 24))
 	}
-	d.human = r.P(1, 5)
+	// compact and HumanReadable alternate so that every version sees both within 16 documents
+	d.human = (idx/len(secVersions))%2 == 1
+	if r.P(1, 8) {
+		d.human = !d.human
+	}
 	d.infoTitle = string(newNeedle(r, 20))
 	d.nItems = 3 + r.Intn(8)
 	if idx >= secBoundaryIdx {
@@ -539,6 +543,9 @@ func (d *secDoc) doWrite(rec *recRand, r *Rand) (err error) {
 			return err
 		}
 	}
+	if err := d.sweep(r, w, newRef); err != nil {
+		return err
+	}
 	if err := w.Close(); err != nil {
 		return fmt.Errorf("Close: %w", err)
 	}
@@ -728,4 +735,151 @@ func cipherOfCF(cf string) (string, int) {
 	var bits int
 	fmt.Sscan(parts[1], &bits)
 	return parts[0], bits / 8
+}
+
+// ---- container sizes and string lengths ----
+
+var secArrayLens = []int{0, 1, 2, 15, 16, 31, 32, 33, 64, 100, 300}
+var secDictSizes = []int{1, 8, 40}
+var secStringLens = []int{0, 1, 15, 16, 17, 31, 32, 33, 255, 256, 1000}
+
+// sweepString makes a string of exactly n bytes; from 12 bytes on it is a
+// needle (distinctive plaintext that must not be visible in the file).
+func (d *secDoc) sweepString(r *Rand, n int) pdf.String {
+	if n < 12 {
+		return pdf.String(r.Bytes(n))
+	}
+	nd := newNeedle(r, n)
+	probe := nd
+	if len(probe) > 48 {
+		probe = probe[:48]
+	}
+	d.needles = append(d.needles, probe)
+	return pdf.String(nd)
+}
+
+// sweepFiller is an array/dict element that is not a string.
+func sweepFiller(r *Rand) pdf.Object {
+	switch r.Intn(4) {
+	case 0:
+		return pdf.Name("N")
+	case 1:
+		return pdf.Boolean(true)
+	default:
+		return pdf.Integer(r.Intn(100000))
+	}
+}
+
+// wrap puts obj below depth enclosing containers.
+func sweepWrap(r *Rand, obj pdf.Object, depth int) pdf.Object {
+	for k := 0; k < depth; k++ {
+		if r.Bool() {
+			obj = pdf.Array{pdf.Integer(k), obj}
+		} else {
+			obj = pdf.Dict{"W": obj, "D": pdf.Integer(k)}
+		}
+	}
+	return obj
+}
+
+// sweep writes, in every document, one object per container size: arrays of
+// every length of secArrayLens and dictionaries of every size of secDictSizes
+// holding strings (all elements, or the first/middle/last and a random one,
+// or inside nested arrays), below 0-3 enclosing containers, as direct objects,
+// stream dictionary entries and object-stream members; and one array with a
+// string of every length of secStringLens (AES block boundaries).
+func (d *secDoc) sweep(r *Rand, w *pdf.Writer, newRef func() pdf.Reference) error {
+	var objs []pdf.Object
+	full := r.Intn(len(secArrayLens)) // this one consists of strings only
+	for j, n := range secArrayLens {
+		arr := make(pdf.Array, n)
+		marks := map[int]bool{}
+		if n > 0 {
+			marks[0], marks[n/2], marks[n-1], marks[r.Intn(n)] = true, true, true, true
+		}
+		for i := range arr {
+			switch {
+			case j == full || marks[i]:
+				arr[i] = d.sweepString(r, Pick(r, []int{12, 14, 16, 20, 5}))
+			case n >= 32 && i%29 == 7:
+				// nested arrays inside the long one, one of them long itself
+				inner := pdf.Array{sweepFiller(r), d.sweepString(r, 13)}
+				if i == 7 {
+					for len(inner) < 40 {
+						inner = append(inner, sweepFiller(r))
+					}
+					inner = append(inner, d.sweepString(r, 15))
+				}
+				arr[i] = inner
+			default:
+				arr[i] = sweepFiller(r)
+			}
+		}
+		objs = append(objs, sweepWrap(r, arr, (j+r.Intn(4))%4))
+	}
+	for j, n := range secDictSizes {
+		dict := pdf.Dict{}
+		all := r.P(1, 3)
+		for i := 0; i < n; i++ {
+			key := pdf.Name(fmt.Sprintf("K%03d", i))
+			switch {
+			case all || i == 0 || i == n-1 || i == n/2:
+				dict[key] = d.sweepString(r, Pick(r, []int{12, 16, 18, 3}))
+			case i%11 == 5:
+				// a name-tree like leaf: 16+ key/value pairs in one array
+				leaf := pdf.Array{}
+				for k := 0; k < 17+r.Intn(4); k++ {
+					leaf = append(leaf, d.sweepString(r, 12), pdf.Integer(k))
+				}
+				dict[key] = pdf.Dict{"Names": leaf}
+			default:
+				dict[key] = sweepFiller(r)
+			}
+		}
+		objs = append(objs, sweepWrap(r, dict, (j+r.Intn(4))%4))
+	}
+	lens := pdf.Array{}
+	for _, n := range secStringLens {
+		lens = append(lens, d.sweepString(r, n))
+	}
+	objs = append(objs, lens, pdf.Dict{"Lens": lens[len(lens)/2:], "Again": lens[3]})
+
+	// spread over the three ways an object reaches the file
+	var crefs []pdf.Reference
+	var cobjs []pdf.Object
+	for j, obj := range objs {
+		switch (j + int(d.version)) % 4 {
+		case 0: // value in a stream dictionary
+			ref := newRef()
+			dict := pdf.Dict{"V": obj, "J": pdf.Integer(j)}
+			body := r.Bytes(r.Intn(40))
+			if err := w.Put(ref, pdf.NewStream(copyDict(dict), body)); err != nil {
+				return fmt.Errorf("sweep stream %v: %w", ref, err)
+			}
+			d.written = append(d.written, secWritten{ref: ref, obj: dict, isStream: true, body: body})
+		case 1: // member of an object stream (written as a plain object where there are none)
+			if _, isRef := obj.(pdf.Reference); !isRef {
+				crefs = append(crefs, w.Alloc())
+				cobjs = append(cobjs, obj)
+				break
+			}
+			fallthrough
+		default:
+			ref := newRef()
+			if err := w.Put(ref, obj); err != nil {
+				return fmt.Errorf("sweep Put %v: %w", ref, err)
+			}
+			d.written = append(d.written, secWritten{ref: ref, obj: obj})
+		}
+	}
+	if len(crefs) > 0 {
+		if err := w.WriteCompressed(crefs, cobjs...); err != nil {
+			return fmt.Errorf("sweep WriteCompressed: %w", err)
+		}
+		inStm := d.version >= pdf.V1_5 && !d.human
+		for j := range crefs {
+			d.written = append(d.written, secWritten{ref: crefs[j], obj: cobjs[j], inObjStm: inStm})
+		}
+	}
+	return nil
 }
